@@ -269,7 +269,7 @@ Proof.
     destruct (lower_stmt am s) as [cx|] eqn:Hs; [|discriminate].
     destruct (lower_block am b) as [cb'|] eqn:Hb; [|discriminate].
     inversion Hl; subst. cbn [fexec_block]. rewrite cexec_block_app.
-    apply (IHb cb' eq_refl). apply (IHs cx eq_refl). exact HR.
+    apply (IHb cb' Hb). apply (IHs cx Hs). exact HR.
 Qed.
 
 (* ---- from the correspondence relation to [expand] ------------------------------------------------------ *)
@@ -541,6 +541,17 @@ Proof.
   - apply IH; assumption.
 Qed.
 
+Lemma NoDup_app_parts {A} (l1 l2 : list A) :
+  NoDup (l1 ++ l2) -> NoDup l1 /\ NoDup l2 /\ (forall x, In x l1 -> In x l2 -> False).
+Proof.
+  induction l1 as [|a l1 IH]; cbn [app]; intros H.
+  - repeat split; [constructor|exact H|intros x []].
+  - inversion H as [|? ? Hni Hnd]; subst. destruct (IH Hnd) as (H1 & H2 & H3). repeat split.
+    + constructor; [|exact H1]. intros Hin. apply Hni. apply in_or_app. left. exact Hin.
+    + exact H2.
+    + intros x [Hx|Hx] Hx2; [subst; apply Hni; apply in_or_app; right; exact Hx2|exact (H3 x Hx Hx2)].
+Qed.
+
 (* One accelerator [a0] with declaration [ai]: if no two of its setup fields, launch fields, the clear
    register share an address, then after the CSR trace demanded by ANY source trace that only talks to
    [a0], every field written so far holds, in the CSR file, the last value written to it. *)
@@ -568,17 +579,15 @@ Proof.
   - apply (Hag f w ad' Hr Ha).
 Qed.
 
+Lemma fields_disjoint_rest x :
+  In x (map snd (ai_fields ai)) -> In x (map snd (ai_launch ai) ++ [CLEAR_ADDR]) -> False.
+Proof. destruct (NoDup_app_parts _ _ Hinj) as (_ & _ & H). apply H. Qed.
+
 Lemma field_addr_not_launch f ad g ad' :
   assoc f (ai_fields ai) = Some ad -> assoc g (ai_launch ai) = Some ad' -> ad <> ad'.
 Proof.
   intros Hf Hg E. subst ad'. apply assoc_In in Hf. apply assoc_In in Hg.
-  apply NoDup_app_remove_l in Hinj as Hl.
-  assert (Hd : forall x, In x (map snd (ai_fields ai)) -> In x (map snd (ai_launch ai) ++ [CLEAR_ADDR]) -> False).
-  { clear - Hinj. induction (map snd (ai_fields ai)) as [|y ys IH]; intros x Hx Hx'; [destruct Hx|].
-    cbn [app] in Hinj. inversion Hinj as [|? ? Hni Hnd]; subst. destruct Hx as [Hx|Hx].
-    - subst. apply Hni. apply in_or_app. right. exact Hx'.
-    - apply (IH Hnd x Hx Hx'). }
-  apply (Hd ad).
+  apply (fields_disjoint_rest ad).
   - apply in_map_iff. exists (f, ad). split; [reflexivity|exact Hf].
   - apply in_or_app. left. apply in_map_iff. exists (g, ad). split; [reflexivity|exact Hg].
 Qed.
@@ -586,12 +595,7 @@ Qed.
 Lemma field_addr_not_clear f ad : assoc f (ai_fields ai) = Some ad -> ad <> CLEAR_ADDR.
 Proof.
   intros Hf E. apply assoc_In in Hf.
-  assert (Hd : forall x, In x (map snd (ai_fields ai)) -> In x (map snd (ai_launch ai) ++ [CLEAR_ADDR]) -> False).
-  { clear - Hinj. induction (map snd (ai_fields ai)) as [|y ys IH]; intros x Hx Hx'; [destruct Hx|].
-    cbn [app] in Hinj. inversion Hinj as [|? ? Hni Hnd]; subst. destruct Hx as [Hx|Hx].
-    - subst. apply Hni. apply in_or_app. right. exact Hx'.
-    - apply (IH Hnd x Hx Hx'). }
-  apply (Hd ad).
+  apply (fields_disjoint_rest ad).
   - apply in_map_iff. exists (f, ad). split; [reflexivity|exact Hf].
   - apply in_or_app. right. left. symmetry. exact E.
 Qed.
@@ -599,7 +603,7 @@ Qed.
 Lemma field_addr_inj f g ad : assoc f (ai_fields ai) = Some ad -> assoc g (ai_fields ai) = Some ad -> f = g.
 Proof.
   intros Hf Hg. apply assoc_In in Hf. apply assoc_In in Hg.
-  apply NoDup_app_remove_r in Hinj as Hl.
+  destruct (NoDup_app_parts _ _ Hinj) as (Hl & _ & _).
   exact (NoDup_map_snd_inj _ _ _ _ Hl Hf Hg).
 Qed.
 
@@ -625,12 +629,7 @@ Proof.
       assert (Hne : forall f ad'', assoc f (ai_fields ai) = Some ad'' -> ad'' <> ad').
       { intros f ad'' Ha E. subst ad''. apply assoc_In in Ha.
         assert (Hin : In (g, ad') (ai_launch ai)) by (apply Hsub; left; reflexivity).
-        assert (Hd : forall x, In x (map snd (ai_fields ai)) -> In x (map snd (ai_launch ai) ++ [CLEAR_ADDR]) -> False).
-        { clear - Hinj. induction (map snd (ai_fields ai)) as [|y ys IH]; intros x Hx Hx'; [destruct Hx|].
-          cbn [app] in Hinj. inversion Hinj as [|? ? Hni Hnd]; subst. destruct Hx as [Hx|Hx].
-          - subst. apply Hni. apply in_or_app. right. exact Hx'.
-          - apply (IH Hnd x Hx Hx'). }
-        apply (Hd ad').
+        apply (fields_disjoint_rest ad').
         - apply in_map_iff. exists (f, ad'). split; [reflexivity|exact Ha].
         - apply in_or_app. left. apply in_map_iff. exists (g, ad'). split; [reflexivity|exact Hin]. }
       apply agree_write_other; [exact Hne|]. apply agree_write_other; [exact Hne|exact Hc']. }
